@@ -265,6 +265,10 @@ class IOOpsMixin:
         self._fill_results = getattr(self, "_fill_results", {})
         try:
             res = fill_cij(df, target, **flags)
+            lowered = [str(c).lower() for c in res.columns]
+            if len(set(lowered)) != len(lowered) and "O-env" in self.oracles:
+                dup = sorted({c for c in lowered if lowered.count(c) > 1})
+                self.verdict("O-env", "C09", client, i, f"the filled table carries the same component more than once under different letter case: {dup[:4]} (columns {[str(c) for c in res.columns][:12]})")
             outcome = ("ok", {str(c).lower(): res[c].to_numpy().astype(float) for c in res.columns}, [str(c) for c in res.columns])
         except Warning as e:
             outcome = ("refused", type(e).__name__, str(e)[:40])
